@@ -112,6 +112,10 @@ impl P {
 /// canonical value of a delivered item: its source position (elements), or the number itself (ranges)
 pub trait Val {
     fn value(&self) -> u64;
+    /// address of the element a delivered reference points at (references only)
+    fn addr(&self) -> Option<usize> {
+        None
+    }
 }
 impl Val for E {
     fn value(&self) -> u64 {
@@ -131,6 +135,9 @@ impl Val for usize {
 impl<T: Val> Val for &T {
     fn value(&self) -> u64 {
         (**self).value()
+    }
+    fn addr(&self) -> Option<usize> {
+        Some(*self as *const T as usize)
     }
 }
 
